@@ -15,31 +15,40 @@ EXPLANATION = (
 RESERVED = {"|": "v", "*": "a", ":": "c", "\\": "d", "/": "s", "?": "q", '"': "t", "<": "l", ">": "r", "#": "h"}
 
 
+DOMAIN = list(range(0, 0x300)) + [0x2028, 0x20AC, 0xD7FF, 0xE000, 0xFFFD, 0x1F600, 0x10FFFF]
+
+
 def char_table(ctx, rep, fn):
+    """the function as a table: its MIR decision table (helpers, named constant tables and iterator searches over them
+    evaluated) applied to every character of DOMAIN.  Returns ({char: image} without the caret row, (entity, item))."""
+    import tabeval
     ms = ctx.ast.method("char", fn, crate="insim_core")
-    if len(ms) != 1:
+    name = "<char as insim_core::string::escaping::Escape>::%s" % fn
+    if len(ms) != 1 or ctx.mir.body(name) is None:
         rep.fail("R12.1", "%s:found" % fn, "%s not found" % fn)
         return None, None
     e, it = ms[0]
-    rep.fn("<char as insim_core::string::escaping::Escape>::%s" % fn)
-    # caret rule first: if self.is_lfs_control_char() { return Some(char::lfs_control_char()) }
-    stmts = it["body"]
-    first = stmts[0] if stmts else {}
-    caret = False
-    if first.get("k") == "Expr" and first["e"].get("k") == "If":
-        c = first["e"]["cond"]
-        caret = c.get("k") == "MethodCall" and c["method"] == "is_lfs_control_char" and c["recv"].get("path") == "self" \
-            and bool(find_nodes(first["e"]["then"], lambda n: n.get("k") == "Return" and n["e"] and tables.edesc(n["e"]) == ("call", "Some", (("call", "char::lfs_control_char", ()),))))
-    rep.check("R12.1", "%s:caret" % fn, caret, "%s must map the caret to the caret before the table" % fn, ctx.loc(e, it["ln"]))
-    mt = tables.first_match(it["body"], "self")
+    rep.fn(name)
+    m = tabeval.Model(ctx, ctx.mir.body(name), None, local_prefix="insim_core::string::")
     t = {}
-    for (p, b, g, ln) in tables.rows(mt["arms"]) if mt else []:
-        if p[0] == "lit":
-            v = b[2][0][1] if b[0] == "call" and b[1] == "Some" and b[2] and b[2][0][0] == "lit" else None
-            rep.check("R12.1", "%s:%s:dup" % (fn, p[1]), p[1] not in t, "duplicate row", ctx.loc(e, ln), nontrivial=False)
-            t[p[1]] = v
-        elif p[0] == "wild":
-            rep.check("R12.1", "%s:other" % fn, b == ("path", "None"), "other characters must map to None", ctx.loc(e, ln), nontrivial=False)
+    others_none = True
+    try:
+        for cp in DOMAIN:
+            v = m.eval_body(name, {1: cp})
+            if not (isinstance(v, tuple) and v[0] == "opt"):
+                raise tabeval.Unknown("result for U+%04X is not an Option value" % cp)
+            if v[1]:
+                if not isinstance(v[2], int):
+                    raise tabeval.Unknown("image of U+%04X" % cp)
+                t[chr(cp)] = chr(v[2])
+    except (tabeval.Unknown, tabeval.Panic) as ex:
+        rep.fail("R12.1", "%s:table" % fn, "%s could not be evaluated as a table (%s)" % (fn, ex), ctx.loc(e, it["ln"]))
+        return None, None
+    rep.check("R12.1", "%s:caret" % fn, t.get("^") == "^", "%s must map the caret to the caret (maps it to %r)" % (fn, t.get("^")), ctx.loc(e, it["ln"]),
+              sample={"function": fn, "characters_evaluated": len(DOMAIN), "mapped": len(t)})
+    t.pop("^", None)
+    extra = sorted(c for c in t if ord(c) >= 0x80)
+    rep.check("R12.1", "%s:other" % fn, not extra, "characters outside ASCII must map to None (mapped: %s)" % extra[:5], ctx.loc(e, it["ln"]), nontrivial=False)
     return t, (e, it)
 
 
